@@ -73,6 +73,8 @@ impl<T: Send + Sync + 'static> Buffer<T> {
             return f(&data);
         }
         mem::drop(data);
+        #[cfg(egglog_verif)]
+        egglog_concurrency::verif_hooks::perturb(50);
         let mut data = self.data.lock();
         if data.len() < len {
             let len = len.next_power_of_two();
